@@ -329,7 +329,7 @@ def build_rechunk(ctx, tape, cap, source):
 def build_user(ctx, tape, cap, source):
     b = core.bnp()
     import numpy as np
-    op = tape.choice(["total_length", "widths", "filter", "shift", "n_entries"], "op")
+    op = tape.choice(["total_length", "widths", "filter", "shift", "n_entries", "two_streams_around_constant"], "op")
     names = gen_key_names(tape, "key")
     rows = gen_grouped_rows(tape, cap, names, "iv")
     params = {}
@@ -360,6 +360,10 @@ def build_user(ctx, tape, cap, source):
     def n_entries(chunk):
         return len(chunk)
 
+    @b.streamable(sum)
+    def weighted_width(starts, k, stops):       # two streamed arguments with an ordinary one between them
+        return int(np.sum((stops - starts) * k))
+
     def compute(src, streamed):
         data = src.stream() if streamed else src.whole()
         if op == "total_length":
@@ -375,6 +379,10 @@ def build_user(ctx, tape, cap, source):
         if op == "n_entries":
             r = n_entries(data)
             return plain(sum(r) if streamed else r)
+        if op == "two_streams_around_constant":
+            if streamed:
+                return plain(weighted_width(data.start, 3, src.stream().stop))     # two independent streams, same cuts
+            return plain(weighted_width(data.start, 3, data.stop))
         raise KeyError(op)
     case.compute = compute
     return case
@@ -557,12 +565,13 @@ def build_genomic(ctx, tape, cap, source):
             if op in ("multi_data_tuple", "multi_data_dict"):
                 m_node = iv.get_mask().get_data()
                 p_node = pile.get_data()
+                # a plain, already known member in front of the nodes
                 if op == "multi_data_tuple":
-                    m, p = tuple(fin((m_node, p_node)))
+                    k, m, p = tuple(fin((7, m_node, p_node)))
                 else:
-                    r = fin({"mask": m_node, "pileup": p_node})
-                    m, p = r["mask"], r["pileup"]
-                return {"mask": tdata(m, True), "pileup": tdata(p)}
+                    r = fin({"n": 7, "mask": m_node, "pileup": p_node})
+                    k, m, p = r["n"], r["mask"], r["pileup"]
+                return {"plain": plain(k) if isinstance(k, (int, float)) else repr(type(k)), "mask": tdata(m, True), "pileup": tdata(p)}
             if op == "multi_two_sources":
                 sec = S.MemSource(secondary(), S.cuts_of_mask(sec_mask, len(sec_rows)), getattr(src, "pulls", None))
                 tr = sec.track(genome, streamed)
